@@ -126,7 +126,9 @@ class OOBMonitor(object):
         if ctx["has_weights"]:
             w = dict(temp["weights"].items())
             dev = {}
-            for cn, c in target.children.items():
+            from .. import taps
+
+            for cn, c in taps.entry_view(self.sim, target).children.items():
                 if cn in w and w[cn] != 0:
                     dev[cn] = abs((c.weight - w[cn]) / w[cn])
             ctx["dev"] = dev
